@@ -583,7 +583,11 @@ func checkInterface(itype *types.Interface, x iface) string {
 func (w *world) rangeIter(x value) iter {
 	switch x := x.(type) {
 	case *omap:
-		return &omapIter{m: x}
+		it := &omapIter{m: x}
+		if x != nil {
+			it.end = len(x.entries)
+		}
+		return it
 	case string, symstr:
 		return &stringIter{s: x}
 	}
